@@ -286,6 +286,7 @@ func (c *Client) receiveLoop() {
 			continue
 		}
 
+		vhook("rl.before-lock")
 		c.pendingMu.Lock()
 		p, ok := c.pending[msg.TransactionID]
 		if ok {
@@ -563,6 +564,7 @@ func (err *ErrTransactionIDInUse) Error() string {
 // The returned lambda function must be called after all desired responses have
 // been received in order to return the Transaction ID to the usable pool.
 func (c *Client) send(dest *net.UDPAddr, msg *dhcpv4.DHCPv4) (resp <-chan *dhcpv4.DHCPv4, cancel func(), err error) {
+	vhook("send.before-lock")
 	c.pendingMu.Lock()
 	if _, ok := c.pending[msg.TransactionID]; ok {
 		c.pendingMu.Unlock()
@@ -583,6 +585,7 @@ func (c *Client) send(dest *net.UDPAddr, msg *dhcpv4.DHCPv4) (resp <-chan *dhcpv
 		// the lock and remove the XID from the pending transaction
 		// map.
 		close(done)
+		vhook("cancel.done-closed")
 
 		c.pendingMu.Lock()
 		// receiveLoop may already have reaped our entry, and another
